@@ -7,6 +7,7 @@ instance parser, foreign subtrees, allocation limit) and every listener state / 
 `Cfg.fixed` = the code with the four C17 fixes; the `C17_original_*` witnesses show what each fix repairs.
 -/
 import Proofs.Lemmas.ListenerHttp
+import Proofs.Lemmas.ListenerXml
 import Proofs.Lemmas.XmlText
 
 namespace C17
@@ -263,6 +264,39 @@ theorem C17_failed_request_leaves_state (E : Env) (s s' : LState) (r : Req) (rsp
     | cimError => exact Or.inl rfl
     | accepted msgid inst hf => exact Or.inr ⟨msgid, inst, hf, rfl, rfl⟩
 
+/-! ## the 200 body is well-formed XML of the EXPMETHODRESPONSE shape (proved XML parser, not only lxml) -/
+
+/-- **Every export response text is a document the proved XML parser `XmlParse.par` accepts**, and what it
+    returns is the tree CIM(CIMVERSION, DTDVERSION) / MESSAGE(ID, PROTOCOLVERSION) / SIMPLEEXPRSP /
+    EXPMETHODRESPONSE(NAME) [ / ERROR(CODE, DESCRIPTION) ] with the message id, method name and description as
+    attribute values (attribute-value normalised: TAB/CR/LF read back as blanks) — for ANY message id and
+    method name made of XML characters and any description made of XML characters. -/
+theorem C17_export_response_parses (msgid m : Str) (err : Option (Nat × Str))
+    (h1 : ∀ c ∈ msgid, isXmlChar c = true) (h2 : ∀ c ∈ m, isXmlChar c = true)
+    (h3 : ∀ p, err = some p → ∀ c ∈ p.2, isXmlChar c = true) :
+    Pywbem.Model.XmlParse.par (rspBody msgid m err) =
+      some (rspTree (normAttr false msgid) (normAttr false m) (err.map (fun p => (p.1, normAttr false p.2)))) :=
+  par_rspBody msgid m err h1 h2 h3
+
+/-- **body_is_valid_export_response, discharged.**  Whatever the request, when the handler answers 200 the body
+    it wrote is accepted by the proved XML parser and is the EXPMETHODRESPONSE tree that echoes the request's
+    message id and method name; the only assumption is that the XML parser that read the request hands out
+    attribute values made of XML characters (`XmlCharsEnv`; true of expat and of `par`).  The ERROR description
+    needs no assumption: it is proved printable US-ASCII (`_ascii2`, `str(int)`, constants). -/
+theorem C17_response_body_is_xml (E : Env) (hE : XmlCharsEnv E) (s s' : LState) (r : Req) (rsp : Response)
+    (h : handle Cfg.fixed E s r = some (.ok (s', rsp))) (hs : rsp.status = 200) :
+    ∃ msgid m err, rsp = exportRsp msgid m err ∧
+      Pywbem.Model.XmlParse.par rsp.body = some (rspTreeRead msgid m err) ∧
+      (∀ p, err = some p → normAttr false p.2 = p.2) := by
+  obtain ⟨bytes, msgid, m, params, hp, hd⟩ := handle_200_source E s s' r rsp h hs
+  obtain ⟨err, he, hpr⟩ := dispatch_rsp s s' msgid m params rsp hd
+  obtain ⟨h1, h2⟩ := parseExportRequest_ids hE hp
+  refine ⟨msgid, m, err, he, ?_, ?_⟩
+  · rw [he]
+    exact par_rspBody msgid m err h1 h2 (fun p hp' => printable_xmlChars (hpr p hp'))
+  · intro p hp'
+    exact Proofs.XmlText.normAttr_plain p.2 (printable_plain (hpr p hp'))
+
 /-! ## histories: the listener survives anything -/
 
 /-- **survives.**  After ANY sequence of requests (each with its own environment) interleaved with
@@ -310,6 +344,47 @@ theorem C17_valid_indication_accepted (E : Env) (s : LState) (r : Req) (msgid : 
   by_cases hf : s.full = true
   · simp only [hf, ↓reduceIte, cimErrFailed]; rfl
   · simp only [hf, Bool.false_eq_true, ↓reduceIte]; rfl
+
+/-! ## the request parser made concrete: strict UTF-8 + the proved XML parser, end to end from octets -/
+
+/-- strict UTF-8 decoding undoes encoding (so the octets of any text reach the XML parser as that text) -/
+theorem C17_utf8_decode_encode (s : Str) : utf8Decode (utf8Bytes s) = some s := utf8Decode_utf8Bytes s
+
+/-- the concrete request parser `parseBytes` (UTF-8 decoding, BOM, `XmlParse.par`) applied to the octets of
+    "XML declaration + serialisation of ANY well-formed element" returns exactly what the wire makes of that
+    element (`wireTree`): the `xmlParse` parameter of the general theorems is discharged for every document a
+    minidom-style serialiser can produce -/
+theorem C17_serialised_request_parsed (t : Xml) (h : Pywbem.Model.XmlParse.WfTree t) (hel : t.isElem = true) :
+    ∃ t', Pywbem.Model.XmlParse.wireTree t = some t' ∧ parseBytes (utf8Bytes (xmlDecl ++ Xml.ser t)) = .ok t' :=
+  parseBytes_ser t h hel
+
+/-- **A serialised indication is accepted, from the octets on.**  For ANY message id made of XML characters and
+    ANY well-formed INSTANCE element, the octets a sender's serialiser writes (declaration + `ser` of the
+    ExportIndication envelope around the instance), posted with headers that pass the header checks and a
+    Content-Length equal to the number of octets, are parsed by the concrete parser and answered with the
+    success response; the indication queued is the instance as the wire delivers it (`wireTree`), under the
+    attribute-normalised message id — in any listener state (ERROR 1 when the queue is full).  Only the INSTANCE
+    content parser is still a parameter (assumed to accept). -/
+theorem C17_serialised_indication_accepted (instP : Xml → Except PyExc Unit) (hI : ∀ t, instP t = .ok ())
+    (s : LState) (r : Req) (msgid : Str) (ias : List (Str × Str)) (iks : List Xml)
+    (h1 : ∀ c ∈ msgid, isXmlChar c = true) (h2 : Pywbem.Model.XmlParse.WfTree (.elem "INSTANCE".toList ias iks))
+    (hm : r.method = "POST".toList) (hh : headerCheck r.headers = none)
+    (hb : r.body = utf8Bytes (xmlDecl ++ Xml.ser (reqTree msgid (.elem "INSTANCE".toList ias iks))))
+    (hcl : contentLen r.headers = some (r.body.length : Int)) (hlen : r.body.length ≤ 2 ^ 40) :
+    ∃ ias' iks', Pywbem.Model.XmlParse.wireTree (.elem "INSTANCE".toList ias iks) = some (.elem "INSTANCE".toList ias' iks') ∧
+      handle Cfg.fixed (parEnv instP) s r = some (.ok (
+        if s.full then (s, exportRsp (normAttr false msgid) "ExportIndication".toList
+            (some (1, fmt1 "Indication queue is full (size " (natStr s.cap) ")")))
+        else (LState.push s (normAttr false msgid, .elem "INSTANCE".toList ias' iks'),
+              exportRsp (normAttr false msgid) "ExportIndication".toList none))) := by
+  obtain ⟨ias', iks', hw, hp⟩ := parseExportRequest_serialised instP msgid ias iks h1 h2 hI
+  refine ⟨ias', iks', hw, ?_⟩
+  apply C17_valid_indication_accepted
+  refine ⟨hm, hh, r.body.length, hcl, ?_, hlen, ?_⟩
+  · have : (2 : Nat) ^ 40 ≤ maxSsize := by decide
+    omega
+  · rw [List.take_length, hb]
+    exact hp
 
 /-! ## the request classes the property names -/
 
@@ -519,5 +594,32 @@ example :
     (run Cfg.fixed (LState.init 1) [.request (demoEnv none [] (.ok ())) (demoReq "abc"),
        .request (demoEnv (some (demoTree "2.0" [demoParam "C"])) [] (.ok ())) (demoReq "2"), .deliver]).1.delivered.length = 1 := by
   decide
+
+/-- non-vacuity of `C17_response_body_is_xml`: an environment with the assumed property (its request is answered
+    200, see above), and a body with characters that need escaping / normalising, parsed -/
+example : XmlCharsEnv (demoEnv (some (demoTree "2.0" [demoParam "C"])) [] (.ok ())) := by
+  intro b t ht
+  simp only [demoEnv] at ht
+  cases ht
+  decide
+
+example : Pywbem.Model.XmlParse.par (rspBody "4&2".toList "Export\tIndication".toList (some (7, "x".toList))) =
+    some (rspTree (normAttr false "4&2".toList) (normAttr false "Export\tIndication".toList)
+      (some (7, normAttr false "x".toList))) :=
+  C17_export_response_parses _ _ _ (by decide) (by decide) (by intro p hp; cases hp; decide)
+
+example : normAttr false "Export\tIndication".toList = "Export Indication".toList := by decide
+
+/-- non-vacuity of `C17_serialised_indication_accepted`: a concrete request (2 headers, 296 octets) meets all its
+    hypotheses -/
+def serReq : Req :=
+  { method := "POST".toList,
+    headers := [("Content-Type".toList, "text/xml".toList), ("Content-Length".toList, "296".toList)],
+    body := utf8Bytes (xmlDecl ++ Xml.ser (reqTree "4\t2".toList (.elem "INSTANCE".toList [("CLASSNAME".toList, "C".toList)] []))) }
+
+set_option maxRecDepth 20000 in
+example : headerCheck serReq.headers = none ∧ contentLen serReq.headers = some (serReq.body.length : Int) ∧
+    serReq.body.length ≤ 2 ^ 40 ∧
+    Pywbem.Model.XmlParse.WfTree (.elem "INSTANCE".toList [("CLASSNAME".toList, "C".toList)] []) := by decide
 
 end C17
